@@ -68,8 +68,9 @@ def gen_cases(tier, seed):
                 if order == 1 and k == 1 and not singles:
                     continue
                 dims = (3, 3) if k == 3 else r.choice([(2, 2), (3, 3), (2, 3)])
-                if variant == 're' and k == 3:
-                    continue  # 150 s derivation: thorough tier
+                if variant == 're' and k == 3 and singles:
+                    continue  # 150 s derivation each: with singles only in the
+                    #           thorough tier
                 add(variant=variant, singles=singles, q='amp', order=order, k=k,
                     dims=dims, cost=20 * order * k)
             if variant == 'mp':
